@@ -237,3 +237,29 @@ MANIFEST_TEXT["C04"] = dict(
     design_ref="DESIGN.md section 4/C04",
     note="Trusts ASan/UBSan as monitors (vptr check off, see DESIGN 2.2) and libFuzzer's timeout for termination; flag/source combinations are sampled, the per-class counters in the evidence show which were reached.",
     technique="coverage-guided fuzzing (libFuzzer, structure-aware decoding) + property-based mutation testing (rapidcheck), sanitizers as monitors")
+
+PROPS["C18"] = dict(
+    units=[dict(harness="argh", mode="usage", quick=dict(cases=25000), thorough=dict(cases=200000, shards=16))],
+    rule="1..10 arguments of all destination kinds with generated attributes (mandatory/optional, hidden, deprecated, replaced-by, "
+         "short/long/both keys, long keys of 36..46 characters around the same-line threshold of 40, descriptions of 1..60 words "
+         "each carrying a unique marker word, print-default on/off/unset, checks, constraints) x usage settings (hfUsageHidden, "
+         "hfUsageDeprecated, --print-hidden, --print-deprecated, --help-short, --help-long given before -h/--help, line length "
+         "60..239, always hfUsageCont) and single-argument help --help-arg=<key> / --help-arg-full=<key> for defined short and "
+         "long keys and for undefined ones. Oracle: marker of an argument occurs exactly once iff the model's visibility predicate "
+         "holds, under the right caption, in an entry whose key line shows exactly its keys; 'Default value:', 'Check:', "
+         "'Constraint:', '[hidden]', '[deprecated]', '[replaced by' present iff configured; single-argument help shows only that "
+         "argument's marker or reports 'is unknown'. Layout is not compared. Non-trivial = >= 1 invisible and >= 2 visible "
+         "arguments and a non-default usage setting, or a single-argument help; distinct by case hash.",
+    require_classes=dict(all=["usage.full", "usage.help_arg", "usage.help_arg_unknown", "usage.print_hidden", "usage.print_deprecated",
+                              "usage.short_only", "usage.long_only", "usage.line_length_set", "usage.long_key_own_line"]),
+    assumptions=["--print-hidden / --print-deprecated are not combined with hfUsageHidden / hfUsageDeprecated (the argument is a flag that toggles the current setting)",
+                 "description words do not start with '-' and are not the token 'nn' (TextBlock gives them a layout meaning)",
+                 "setPrintDefault() is only called for destinations that can print a default (plain scalars, tuple)",
+                 "Handler::usage consults the Groups singleton; the harness never evaluates through Groups in a usage case"],
+)
+MANIFEST_TEXT["C18"] = dict(
+    text="Generated argument sets with visibility attributes are printed through the real help arguments; every argument carries a unique "
+         "marker word whose number of occurrences, section and entry are judged against an independent visibility predicate. " + EXPL,
+    design_ref="DESIGN.md section 4/C18",
+    note="Judges membership, section, keys and the configured notes of every entry; the layout (wrapping, column alignment) is deliberately not compared (C17 covers the text block).",
+    technique="property-based testing (rapidcheck) with a marker-word counting oracle and an independent visibility model, under ASan/UBSan")
